@@ -252,7 +252,29 @@ func (c *Ctx) ruleBroadcastUnderLock(rule string) {
 
 func (c *Ctx) ruleFalsifyingStepsWake(rule string) {
 	R := c.R
-	c.Rep.rule(rule, "E2 path", "each in-flight decrement is followed by a release evaluation; the dispatcher evaluates the release each time it drained the queue; Purge notifies the dispatcher", 4)
+	c.Rep.rule(rule, "E2 path", "each in-flight decrement is followed by a release evaluation; the dispatcher evaluates the release each time it drained the queue; Purge notifies the dispatcher; every store of Paused is followed by a release evaluation", 4)
+	// Running → Paused weakens what parked callers wait for (pending no longer counts): whoever stores Paused
+	// re-evaluates the release
+	lt := c.lifecycle()
+	for _, m := range lt.Methods {
+		for _, s := range lt.States {
+			for _, o := range lt.cell(m, s) {
+				for i, e := range o.Effects {
+					if e != "wstatus:Paused" {
+						continue
+					}
+					rel := false
+					for _, e2 := range o.Effects[i+1:] {
+						if e2 == "release" {
+							rel = true
+						}
+					}
+					c.Rep.check(rel, rule, m, "Paused stored without a release evaluation (from "+s+")", o.End, "wstatus:Paused … release",
+						fmt.Sprintf("%s from %s stores Paused and does not re-evaluate the barrier release: a WaitUntilFinished caller parked while the worker was running (waiting for the queue to empty) is not woken although, with the worker paused and nothing in flight, its condition now holds (%s)", m, s, o))
+				}
+			}
+		}
+	}
 	for _, f := range []*Func{R.Completion, R.Step} {
 		if f == nil {
 			continue
